@@ -16,6 +16,8 @@ from .dfacts import CONCURRENT_JOIN, batch_facts, notif_facts
 
 
 def run(ck: Check, prog: Program) -> None:
+    from .common import dispatcher_program
+    prog = dispatcher_program(prog)
     roles = [r for r in dispatchers(prog)]
     ars = [r for r in roles if r.dispatch.is_async]
     if len(ars) != 1:
